@@ -140,3 +140,15 @@ def ctx_for(desc):
     if desc.get('vocab') == 'nlargs':
         return nlargs_context()
     return vocab_from_seed(desc['vseed'])[1]
+
+
+# parsing states a walker may be started from (LatexWalker(default_parsing_state=...)): every switch of ParsingState
+PS_CONFIGS = [
+    {'in_math_mode': True, 'math_mode_delimiter': '$'}, {'in_math_mode': True}, {'in_math_mode': True, 'math_mode_delimiter': '\\['},
+    {'enable_double_newline_paragraphs': False}, {'enable_comments': False}, {'enable_macros': False},
+    {'enable_environments': False}, {'enable_groups': False}, {'enable_math': False}, {'enable_specials': False},
+    {'latex_group_delimiters': [['{', '}'], ['[', ']']]}, {'latex_group_delimiters': [['(', ')']]},
+    {'latex_inline_math_delimiters': [['$', '$'], ['|', '|']], 'latex_display_math_delimiters': [['<', '>']]},
+    {'forbidden_characters': 'a$'}, {'macro_escape_char': '!', 'comment_start': '@'}, {'macro_alpha_chars': 'ab@'},
+    {'comment_start': '%%'},
+]
